@@ -135,7 +135,13 @@ Fixpoint py_run (g : Z -> bool) (b : pyblock) (st : pystate) (steps : list (list
       end
   end.
 
+(* the state the simulator starts from: Simulator.__init__ calls propagateAll(), so a propagate block has run once *)
+Definition py_start (g : Z -> bool) (b : pyblock) : option pystate :=
+  match b_kind b with KClock => Some (py_init b) | KPropagate => py_call g b (py_init b) end.
+
 Definition py_sim (g : Z -> bool) (b : pyblock) (steps : list (list (string * Z) * nat)) (ports attrs : list string)
   : list (list Z) * bool :=
-  let st0 := py_init b in
-  let '(tr, ok) := py_run g b st0 steps ports attrs in (py_obs st0 ports attrs :: tr, ok).
+  match py_start g b with
+  | None => ([], false)
+  | Some st0 => let '(tr, ok) := py_run g b st0 steps ports attrs in (py_obs st0 ports attrs :: tr, ok)
+  end.
